@@ -16,6 +16,12 @@ open KDVerif.RngFlow KDVerif.SeedFlow
     the call to their inner dataset(s), and root datasets re-seed their registered collators -/
 theorem layer_rows_ok : layersOk KDVerif.Gen.WrapperTable.layerRows = true := by decide +kernel
 
+/-- **generated obligation**: the transform / collator hook itself re-seeds unconditionally — whatever
+    `get_worker_info()` reports (one worker or many, called in the main process or in a worker) -/
+theorem hooks_reseed_unconditionally :
+    KDVerif.Gen.WrapperTable.transformHookReseeds = true ∧ KDVerif.Gen.WrapperTable.collatorHookReseeds = true := by
+  decide
+
 /-- **worker_init_fn re-seeds everything**: for every dataset stack built from the tables (any depth, any
     branching through concat datasets, any transform composition in any layer, any collators), after the
     worker-initialisation chain has run, every reachable generator cell is one of the generators derived from
